@@ -1,4 +1,5 @@
 import NriModel.Lemmas.ResultUpdates
+import NriModel.Lemmas.ResultWalkVals
 /-!
 # C05 — container updates are collected once per target with exactly the fields set
 
@@ -17,7 +18,7 @@ update, field by field) — the chain-level value statement is evaluated on ever
 chain by the correspondence run (`exactFields`) and is not proved: partial.
 -/
 namespace Nri.Props.C05
-open Nri Nri.NApi Nri.Result Nri.Ledger
+open Nri Nri.NApi Nri.Result Nri.Ledger Nri.UpdateWalk
 
 theorem updWF_init (st : State) (h1 : st.updates = []) (h2 : st.own = none) : UpdWF st :=
   ⟨by simp [ids, h1], by simp [ids, h1], by simp [h2]⟩
@@ -143,6 +144,137 @@ theorem C05_applied_fields (base r : Resources) (m : Memory) (c : Cpu)
     out.blockioClass = (r.blockioClass.orElse fun _ => base.blockioClass) ∧
     out.rdtClass = (r.rdtClass.orElse fun _ => base.rdtClass) := by
   simp [overlayRes, overlayMem, overlayCpu, hm, hc]
+
+
+/-! ### chain level: the model refines the specification walk -/
+
+/-- **The model refines the walk.** For a request started in a fresh collector state and a chain
+    in which no single update names one item twice, after a successful request
+    (i) every entry of the reply's update list (third-party entries and the own entry) carries
+    exactly the resources the specification walk yields for its target, and
+    (ii) a `(target, item)` pair is taken in the walk iff it has an owner in the ledger (for
+    every target other than the container being created). -/
+theorem C05_walk_refines (st0 st' : State) (rs : List (Plugin × Response))
+    (h1 : st0.updates = []) (h2 : st0.own = none) (h3 : st0.owners = [])
+    (hnd : NoDupItems (flatUpdates rs))
+    (h : run Quirks.fixed st0 (answeredAll rs) = .ok st') :
+    (∀ e, some e ∈ replyUpdates st' →
+       e.resources = some ((walk (baseOf st0) rs).get (baseOf st0) e.containerId)) ∧
+    (∀ c it, st0.kind ≠ .create c →
+       ((c, it) ∈ (walk (baseOf st0) rs).taken ↔ (st'.owners.owner c it).isSome = true)) := by
+  obtain ⟨rel, ok⟩ := run_rel (baseOf st0) rs st0 st' {} (rel_fresh st0 h1 h3) (entOK_fresh st0 h1 h2) hnd h
+  rw [← walk_eq] at rel
+  refine ⟨fun e he => ?_, fun c it hc => ?_⟩
+  · rw [replyUpdates_vals st' ok e he, rel.vals]
+  · exact rel.taken c it (by rw [run_kind _ st0 st' _ h]; exact hc)
+
+/-- **Exact fields (C05, value clause), every request kind.** For an update request of `id`
+    with any requested resources `req`, a stop request, or the creation of `c0`: after a
+    successful request every returned entry `e` has
+    `e.resources = some ((walk base rs).get base e.containerId)` with the driver's base
+    (`specBase`: `normRes req` for the container being updated, `normRes {}` otherwise).
+    Equality is structural equality of `Resources`. -/
+theorem C05_exact_fields (st0 st' : State) (req : Resources) (rs : List (Plugin × Response))
+    (hinit : (∃ id, st0 = initUpdate id req) ∨ st0 = initStop ∨ ∃ c0, st0 = initCreate c0)
+    (hnd : NoDupItems (flatUpdates rs))
+    (h : run Quirks.fixed st0 (answeredAll rs) = .ok st') :
+    ∀ e, some e ∈ replyUpdates st' →
+      e.resources = some ((walk (specBase st0.kind req) rs).get (specBase st0.kind req) e.containerId) := by
+  have hb : baseOf st0 = specBase st0.kind req ∧ st0.updates = [] ∧ st0.own = none ∧ st0.owners = [] := by
+    rcases hinit with ⟨id, rfl⟩ | rfl | ⟨c0, rfl⟩
+    · exact ⟨baseOf_initUpdate id req, rfl, rfl, rfl⟩
+    · exact ⟨baseOf_initStop req, rfl, rfl, rfl⟩
+    · exact ⟨baseOf_initCreate c0 req, rfl, rfl, rfl⟩
+  obtain ⟨hb, h1, h2, h3⟩ := hb
+  have := (C05_walk_refines st0 st' rs h1 h2 h3 hnd h).1
+  rw [hb] at this
+  exact this
+
+/-- **Entries are overlays of the applied updates.** Every returned entry is its base overlaid,
+    in chain order, with exactly the updates the walk applies to its target — nothing of any
+    other update reaches it. -/
+theorem C05_entry_overlay (st0 st' : State) (rs : List (Plugin × Response))
+    (h1 : st0.updates = []) (h2 : st0.own = none) (h3 : st0.owners = [])
+    (hnd : NoDupItems (flatUpdates rs))
+    (h : run Quirks.fixed st0 (answeredAll rs) = .ok st') :
+    ∀ e, some e ∈ replyUpdates st' →
+      e.resources = some
+        (((appliedFrom (baseOf st0) {} (flatUpdates rs)).filter fun u => u.containerId = e.containerId).foldl
+          overlayUpd (baseOf st0 e.containerId)) := by
+  intro e he
+  rw [(C05_walk_refines st0 st' rs h1 h2 h3 hnd h).1 e he, walk_eq, foldl_get]
+  rfl
+
+/-- **Ignored conflicting update, chain level.** If the update `u` at some position of the
+    chain's update lists names an item that is taken when the walk reaches it (by
+    `C05_walk_refines` (ii): an item that has an owner), then `u` is not among the updates
+    overlaid on any entry: every returned entry is its base overlaid with the applied updates
+    before `u` and the applied updates after `u` — no value of `u`, not even of the fields
+    before the taken one, reaches any entry. (In a successful request such a `u` is marked
+    ignore-failure: `C05_conflict_fails`.) -/
+theorem C05_ignored_drop_chain (st0 st' : State) (rs : List (Plugin × Response))
+    (h1 : st0.updates = []) (h2 : st0.own = none) (h3 : st0.owners = [])
+    (hnd : NoDupItems (flatUpdates rs))
+    (h : run Quirks.fixed st0 (answeredAll rs) = .ok st')
+    (pre post : List Update) (u : Update) (hflat : flatUpdates rs = pre ++ u :: post)
+    (it : Item) (hit : it ∈ setsUpd u)
+    (htaken : (u.containerId, it) ∈ (pre.foldl (simUpdate (baseOf st0)) {}).taken) :
+    ∀ e, some e ∈ replyUpdates st' →
+      e.resources = some
+        (((appliedFrom (baseOf st0) {} pre ++
+            appliedFrom (baseOf st0) (simUpdate (baseOf st0) (pre.foldl (simUpdate (baseOf st0)) {}) u) post).filter
+          fun v => v.containerId = e.containerId).foldl overlayUpd (baseOf st0 e.containerId)) := by
+  intro e he
+  rw [C05_entry_overlay st0 st' rs h1 h2 h3 hnd h e he, hflat, appliedFrom_append]
+  simp only [appliedFrom, not_applies_of_taken _ u it hit htaken, Bool.false_eq_true, ↓reduceIte, List.nil_append]
+
+/-- **Single source per field.** For every returned entry and every item `it`, among the
+    updates overlaid on the entry (`C05_entry_overlay`) either exactly one names `it`, and the
+    entry's field is that update's value, or none does and the field is the base value — values
+    of different updates (hence of different plugins) are never merged into one field.
+    `fieldVal` reads the 18 scalars and the unified keys (hugepage limits, which are appended,
+    read as `other`). -/
+theorem C05_single_source (st0 st' : State) (rs : List (Plugin × Response))
+    (h1 : st0.updates = []) (h2 : st0.own = none) (h3 : st0.owners = [])
+    (hnd : NoDupItems (flatUpdates rs))
+    (h : run Quirks.fixed st0 (answeredAll rs) = .ok st')
+    (e : Update) (he : some e ∈ replyUpdates st') (res : Resources) (hres : e.resources = some res)
+    (it : Item) :
+    let app := (appliedFrom (baseOf st0) {} (flatUpdates rs)).filter fun u => u.containerId = e.containerId
+    (∃ pre u post r, app = pre ++ u :: post ∧ u.resources = some r ∧ it ∈ setsUpd u ∧
+        (∀ v ∈ pre ++ post, it ∉ setsUpd v) ∧ fieldVal it res = fieldVal it r) ∨
+    ((∀ v ∈ app, it ∉ setsUpd v) ∧ fieldVal it res = fieldVal it (baseOf st0 e.containerId)) := by
+  intro app
+  have hval := C05_entry_overlay st0 st' rs h1 h2 h3 hnd h e he
+  rw [hres] at hval
+  have hres' : res = app.foldl overlayUpd (baseOf st0 e.containerId) := Option.some.inj hval
+  have hpw : app.Pairwise fun v w => ∀ it ∈ setsUpd v, it ∉ setsUpd w := by
+    have := (appliedFrom_pairwise (baseOf st0) (flatUpdates rs) {}).filter (fun u => decide (u.containerId = e.containerId))
+    refine List.Pairwise.imp_of_mem ?_ this
+    intro v w hv hw hvw
+    have hv' := (List.mem_filter.1 hv).2
+    have hw' := (List.mem_filter.1 hw).2
+    simp only [decide_eq_true_eq] at hv' hw'
+    exact hvw (hv'.trans hw'.symm)
+  by_cases hex : ∃ u ∈ app, it ∈ setsUpd u
+  · left
+    obtain ⟨u, hu, hitu⟩ := hex
+    obtain ⟨pre, post, happ⟩ := List.append_of_mem hu
+    obtain ⟨hmem, r, hr⟩ := appliedFrom_mem (baseOf st0) (flatUpdates rs) {} u (List.mem_filter.1 hu).1
+    rw [happ] at hpw
+    obtain ⟨_, hpw2, hpw3⟩ := List.pairwise_append.1 hpw
+    have hpost : ∀ v ∈ post, it ∉ setsUpd v := fun v hv => (List.pairwise_cons.1 hpw2).1 v hv it hitu
+    have hpre : ∀ v ∈ pre, it ∉ setsUpd v := fun v hv hitv => hpw3 v hv u List.mem_cons_self it hitv hitu
+    refine ⟨pre, u, post, r, happ, hr, hitu, ?_, ?_⟩
+    · intro v hv
+      rcases List.mem_append.1 hv with hv | hv
+      · exact hpre v hv
+      · exact hpost v hv
+    · rw [hres', happ]
+      exact fold_field_set it pre post u r _ hr (hnd u hmem) hitu hpost
+  · right
+    have hnone : ∀ v ∈ app, it ∉ setsUpd v := fun v hv hitv => hex ⟨v, hv, hitv⟩
+    exact ⟨hnone, by rw [hres']; exact fold_field_keep it app _ hnone⟩
 
 /-! ### the hypotheses are satisfiable -/
 
